@@ -146,7 +146,7 @@ def run(c):
         plan = [("kex", ["n1", "g1"], 2, 0, ["kex"]), ("key", ["n1", "n2"], 1, 0, ["key"]),
                 ("cipher", ["n1", "n2"], 1, 0, ["cipher", "mac", "compression"])]
     else:
-        plan = [("kex", ["n1", "n2", "g1"], 2, 2, ["kex"]), ("key", ["n1", "n2", "n3"], 2, 3, ["key"]),
+        plan = [("kex", ["n1", "n2", "g1"], 2, 3, ["kex"]), ("key", ["n1", "n2", "n3"], 2, 3, ["key"]),
                 ("cipher", ["n1", "n2", "n3"], 2, 2, ["cipher", "mac", "compression"])]
     records, meta = [], []
     stage["mc_sensitivity_s"] = round(time.time() - t0, 1)
